@@ -1,22 +1,33 @@
 // ---- ENGINE MODEL for command-layer units. The real handlers take `storage: &Arc<StorageEngine>` and call `&self`
 // methods that mutate behind locks; that state change is invisible to Verus. In handler units the parameter is replaced
 // (declared `params drop/add`) by `storage: &mut EngineModel`, whose methods have the SAME NAMES AND ARGUMENTS but take
-// `&mut self` and carry contracts over the abstract dataset `ds`. Each contract below is an ASSUMED CONTRACT at this
-// level (listed in evidence); the per-shard behaviour they summarise is what the shard_* groups prove.
+// `&mut self` and carry contracts over the abstract dataset `ds` (spec/dataset.rs). Each contract below is an ASSUMED
+// CONTRACT at this level (listed in evidence); the per-shard behaviour they summarise is what the shard_* groups prove
+// (modulo R2, get_shard routing and lazy expiry).
 verus! {
 pub struct EngineModel { pub ds: Ghost<DS> }
 pub open spec fn wt() -> FerrousError { FerrousError::Storage(StorageError::WrongType) }
-
-/// abstract value of an exec Value
 pub open spec fn dv_of(v: Value) -> DV {
     match v {
-        Value::String(b) => DV::Str(b@),
-        Value::List(l) => DV::List(l@),
-        Value::Set(m) => DV::Set(m@),
-        Value::Hash(h) => DV::Hash(h@),
-        Value::SortedSet(_) => DV::ZSet,
-        Value::Stream(_) => DV::Stream,
+        Value::String(b) => DV::Str(b@), Value::List(l) => DV::List(l@), Value::Set(m) => DV::Set(m@), Value::Hash(h) => DV::Hash(h@),
+        Value::SortedSet(_) => DV::ZSet, Value::Stream(_) => DV::Stream,
     }
+}
+/// an engine result agrees with an abstract reply: WrongType is the WrongType storage error, any other refusal some other error
+pub open spec fn res_int(r: Result<usize>, rv: RV) -> bool {
+    match rv { RV::Int(n) => r matches Ok(v) && v == n, RV::WrongType => r matches Err(e) && e == wt(), RV::OtherErr => r matches Err(e) && e != wt(), _ => false }
+}
+pub open spec fn res_bytes(r: Result<Vec<u8>>, rv: RV) -> bool {
+    match rv { RV::Bulk(Some(b)) => r matches Ok(v) && v@ == b, RV::WrongType => r matches Err(e) && e == wt(), RV::OtherErr => r matches Err(e) && e != wt(), _ => false }
+}
+pub open spec fn res_opt_bytes(r: Result<Option<Vec<u8>>>, rv: RV) -> bool {
+    match rv { RV::Bulk(Some(b)) => r matches Ok(Some(v)) && v@ == b, RV::Bulk(None) => r matches Ok(None), RV::WrongType => r matches Err(e) && e == wt(), RV::OtherErr => r matches Err(e) && e != wt(), _ => false }
+}
+pub open spec fn res_unit(r: Result<()>, rv: RV) -> bool {
+    match rv { RV::Okay => r is Ok, RV::WrongType => r matches Err(e) && e == wt(), RV::OtherErr => r matches Err(e) && e != wt(), _ => false }
+}
+pub open spec fn res_arr(r: Result<Vec<Vec<u8>>>, rv: RV) -> bool {
+    match rv { RV::Arr(a) => r matches Ok(v) && v@.map_values(|x: Vec<u8>| x@) == a, RV::WrongType => r matches Err(e) && e == wt(), RV::OtherErr => r matches Err(e) && e != wt(), _ => false }
 }
 
 impl EngineModel {
@@ -37,40 +48,120 @@ impl EngineModel {
                 Some(_) => r matches Err(e) && e == wt(),
             },
     { unimplemented!() }
-
     #[verifier::external_body]
     pub fn set_string(&mut self, db: usize, key: Vec<u8>, value: Vec<u8>) -> (r: Result<()>)
         ensures r is Ok ==> final(self).ds@ == old(self).ds@.insert((db as int, key@), DV::Str(value@)),
             r is Err ==> final(self).ds@ == old(self).ds@,
     { unimplemented!() }
-
     #[verifier::external_body]
     pub fn append(&mut self, db: usize, key: Vec<u8>, value: Vec<u8>) -> (r: Result<usize>)
-        ensures match ds_get(old(self).ds@, db as int, key@) {
-                None => r matches Ok(n) && n == value@.len() && final(self).ds@ == old(self).ds@.insert((db as int, key@), DV::Str(value@)),
-                Some(DV::Str(b)) => r matches Ok(n) && n == b.len() + value@.len() && final(self).ds@ == old(self).ds@.insert((db as int, key@), DV::Str(b + value@)),
-                Some(_) => (r matches Err(e) && e == wt()) && final(self).ds@ == old(self).ds@,
-            },
+        ensures res_int(r, spec_append(old(self).ds@, db as int, key@, value@).0), final(self).ds@ == spec_append(old(self).ds@, db as int, key@, value@).1,
     { unimplemented!() }
-
     #[verifier::external_body]
     pub fn strlen(&mut self, db: usize, key: &[u8]) -> (r: Result<usize>)
-        ensures final(self).ds@ == old(self).ds@,
-            match ds_get(old(self).ds@, db as int, key@) {
-                None => r matches Ok(n) && n == 0,
-                Some(DV::Str(b)) => r matches Ok(n) && n == b.len(),
-                Some(_) => r matches Err(e) && e == wt(),
-            },
+        ensures res_int(r, spec_strlen(old(self).ds@, db as int, key@).0), final(self).ds@ == old(self).ds@,
     { unimplemented!() }
-
     #[verifier::external_body]
     pub fn getrange(&mut self, db: usize, key: &[u8], start: isize, end: isize) -> (r: Result<Vec<u8>>)
-        ensures final(self).ds@ == old(self).ds@,
-            match ds_get(old(self).ds@, db as int, key@) {
-                None => r matches Ok(v) && v@.len() == 0,
-                Some(DV::Str(b)) => r matches Ok(v) && v@ == spec_getrange(b, start as int, end as int),
-                Some(_) => r matches Err(e) && e == wt(),
-            },
+        ensures res_bytes(r, spec_getrange_cmd(old(self).ds@, db as int, key@, start as int, end as int).0), final(self).ds@ == old(self).ds@,
+    { unimplemented!() }
+    #[verifier::external_body]
+    pub fn setrange(&mut self, db: usize, key: Vec<u8>, offset: usize, value: Vec<u8>) -> (r: Result<usize>)
+        ensures res_int(r, spec_setrange_cmd(old(self).ds@, db as int, key@, offset as int, value@).0), final(self).ds@ == spec_setrange_cmd(old(self).ds@, db as int, key@, offset as int, value@).1,
+    { unimplemented!() }
+    // ---- lists
+    #[verifier::external_body]
+    pub fn lpush(&mut self, db: usize, key: Vec<u8>, elements: Vec<Vec<u8>>) -> (r: Result<usize>)
+        requires elements@.len() > 0,
+        ensures res_int(r, spec_push(old(self).ds@, db as int, key@, elements@, true).0), final(self).ds@ == spec_push(old(self).ds@, db as int, key@, elements@, true).1,
+    { unimplemented!() }
+    #[verifier::external_body]
+    pub fn rpush(&mut self, db: usize, key: Vec<u8>, elements: Vec<Vec<u8>>) -> (r: Result<usize>)
+        requires elements@.len() > 0,
+        ensures res_int(r, spec_push(old(self).ds@, db as int, key@, elements@, false).0), final(self).ds@ == spec_push(old(self).ds@, db as int, key@, elements@, false).1,
+    { unimplemented!() }
+    #[verifier::external_body]
+    pub fn lpop(&mut self, db: usize, key: &[u8]) -> (r: Result<Option<Vec<u8>>>)
+        ensures res_opt_bytes(r, spec_pop(old(self).ds@, db as int, key@, true).0), final(self).ds@ == spec_pop(old(self).ds@, db as int, key@, true).1,
+    { unimplemented!() }
+    #[verifier::external_body]
+    pub fn rpop(&mut self, db: usize, key: &[u8]) -> (r: Result<Option<Vec<u8>>>)
+        ensures res_opt_bytes(r, spec_pop(old(self).ds@, db as int, key@, false).0), final(self).ds@ == spec_pop(old(self).ds@, db as int, key@, false).1,
+    { unimplemented!() }
+    #[verifier::external_body]
+    pub fn llen(&mut self, db: usize, key: &[u8]) -> (r: Result<usize>)
+        ensures res_int(r, spec_llen(old(self).ds@, db as int, key@).0), final(self).ds@ == old(self).ds@,
+    { unimplemented!() }
+    #[verifier::external_body]
+    pub fn lindex(&mut self, db: usize, key: &[u8], index: isize) -> (r: Result<Option<Vec<u8>>>)
+        ensures res_opt_bytes(r, spec_lindex(old(self).ds@, db as int, key@, index as int).0), final(self).ds@ == old(self).ds@,
+    { unimplemented!() }
+    #[verifier::external_body]
+    pub fn lset(&mut self, db: usize, key: Vec<u8>, index: isize, value: Vec<u8>) -> (r: Result<()>)
+        ensures res_unit(r, spec_lset(old(self).ds@, db as int, key@, index as int, value).0), final(self).ds@ == spec_lset(old(self).ds@, db as int, key@, index as int, value).1,
+    { unimplemented!() }
+    #[verifier::external_body]
+    pub fn lrange(&mut self, db: usize, key: &[u8], start: isize, stop: isize) -> (r: Result<Vec<Vec<u8>>>)
+        ensures res_arr(r, spec_lrange(old(self).ds@, db as int, key@, start as int, stop as int).0), final(self).ds@ == old(self).ds@,
+    { unimplemented!() }
+    #[verifier::external_body]
+    pub fn ltrim(&mut self, db: usize, key: Vec<u8>, start: isize, stop: isize) -> (r: Result<()>)
+        ensures res_unit(r, spec_ltrim(old(self).ds@, db as int, key@, start as int, stop as int).0), final(self).ds@ == spec_ltrim(old(self).ds@, db as int, key@, start as int, stop as int).1,
     { unimplemented!() }
 }
+
+impl EngineModel {
+    // ---- sets
+    #[verifier::external_body]
+    pub fn sadd(&mut self, db: usize, key: Vec<u8>, members: Vec<Vec<u8>>) -> (r: Result<usize>)
+        requires members@.len() > 0,
+        ensures res_int(r, spec_sadd(old(self).ds@, db as int, key@, members@).0), final(self).ds@ == spec_sadd(old(self).ds@, db as int, key@, members@).1,
+    { unimplemented!() }
+    #[verifier::external_body]
+    pub fn sismember(&mut self, db: usize, key: &[u8], member: &[u8]) -> (r: Result<bool>)
+        ensures final(self).ds@ == old(self).ds@,
+            match spec_sismember(old(self).ds@, db as int, key@, member@).0 { RV::Int(n) => r matches Ok(b) && b == (n == 1), _ => r matches Err(e) && e == wt() },
+    { unimplemented!() }
+    #[verifier::external_body]
+    pub fn scard(&mut self, db: usize, key: &[u8]) -> (r: Result<usize>)
+        ensures res_int(r, spec_scard(old(self).ds@, db as int, key@).0), final(self).ds@ == old(self).ds@,
+    { unimplemented!() }
+    #[verifier::external_body]
+    pub fn smembers(&mut self, db: usize, key: &[u8]) -> (r: Result<Vec<Vec<u8>>>)
+        ensures final(self).ds@ == old(self).ds@,
+            match spec_smembers(old(self).ds@, db as int, key@).0 { RV::ArrSet(m) => r matches Ok(v) && v@.to_set() == m && v@.no_duplicates(), _ => r matches Err(e) && e == wt() },
+    { unimplemented!() }
+    // ---- hashes
+    #[verifier::external_body]
+    pub fn hget(&mut self, db: usize, key: &[u8], field: &[u8]) -> (r: Result<Option<Vec<u8>>>)
+        ensures res_opt_bytes(r, spec_hget(old(self).ds@, db as int, key@, field@).0), final(self).ds@ == old(self).ds@,
+    { unimplemented!() }
+    #[verifier::external_body]
+    pub fn hlen(&mut self, db: usize, key: &[u8]) -> (r: Result<usize>)
+        ensures res_int(r, spec_hlen(old(self).ds@, db as int, key@).0), final(self).ds@ == old(self).ds@,
+    { unimplemented!() }
+    #[verifier::external_body]
+    pub fn hexists(&mut self, db: usize, key: &[u8], field: &[u8]) -> (r: Result<bool>)
+        ensures final(self).ds@ == old(self).ds@,
+            match spec_hexists(old(self).ds@, db as int, key@, field@).0 { RV::Int(n) => r matches Ok(b) && b == (n == 1), _ => r matches Err(e) && e == wt() },
+    { unimplemented!() }
+    #[verifier::external_body]
+    pub fn hincrby(&mut self, db: usize, key: Vec<u8>, field: Vec<u8>, increment: i64) -> (r: Result<i64>)
+        ensures final(self).ds@ == spec_hincrby(old(self).ds@, db as int, key@, field, increment).1,
+            match spec_hincrby(old(self).ds@, db as int, key@, field, increment).0 { RV::Int(n) => r matches Ok(v) && v == n, RV::WrongType => r matches Err(e) && e == wt(), _ => r matches Err(e) && e != wt() },
+    { unimplemented!() }
+}
+
+/// set-member arrays: same idiom, no duplicates in => no duplicate frames out
+#[verifier::external_body]
+pub fn verif_bulk_frames_set(v: Vec<Vec<u8>>) -> (r: Vec<RespFrame>)
+    ensures r@.len() == v@.len(), forall|i: int| 0 <= i < v@.len() ==> bulk_reply(#[trigger] r@[i]) == Some(Some(v@[i]@)),
+{ v.into_iter().map(|e| RespFrame::from_bytes(e)).collect() }
+
+/// `v.into_iter().map(|e| RespFrame::from_bytes(e)).collect()` (iterator adapters are outside Verus' subset): ASSUMED
+/// CONTRACT for that idiom — one bulk-string frame per element, in order
+#[verifier::external_body]
+pub fn verif_bulk_frames(v: Vec<Vec<u8>>) -> (r: Vec<RespFrame>)
+    ensures r@.len() == v@.len(), forall|i: int| 0 <= i < v@.len() ==> bulk_reply(#[trigger] r@[i]) == Some(Some(v@[i]@)),
+{ v.into_iter().map(|e| RespFrame::from_bytes(e)).collect() }
 }
